@@ -11,7 +11,7 @@ from __future__ import annotations
 import os
 from pathlib import Path
 
-from .. import sm
+from .. import seams, sm
 from .. import prelude
 from ..core import Sim, SimInterrupt, SimKill
 from ..simfs import Plan, SimFS
@@ -108,8 +108,20 @@ def _run(sim: Sim, fs: SimFS, save_mod, fanout: bool, e2e: bool = False) -> None
     k = sim.choose(6, "earlier-runs")
     if sim.flip(1, 8, "long-history"):
         k = 6 + sim.choose(10, "earlier-runs-many")
+    procs = seams.SimProcesses(sim)
+    nprocs = 1 + sim.choose(3, "processes-sharing-the-directory")
+
+    def restub() -> None:
+        if fanout:
+            for key in list(save_mod.SAVERS):
+                if key != "data.json":
+                    save_mod.SAVERS[key] = _noop_saver
+
     with sim.guard("C20.fault_free_save_raised"):
         for _ in range(k):
+            if nprocs > 1:
+                procs.switch(sim.choose(nprocs, "saving-process"))
+                restub()
             name = sm.draw_name(sim, used, want_new=True)
             out = sm.draw_output(sim, special=True, max_rows=8, max_cols=8)
             fs.begin_op()
@@ -189,6 +201,9 @@ def _run(sim: Sim, fs: SimFS, save_mod, fanout: bool, e2e: bool = False) -> None
                 sim.probe("interrupt_in_save")
             # ---- the process is gone; a restarted one looks at the directory
             fs.heal()
+            if plan.kind.startswith("kill") and sim.flip(1, 4, "restart-reader-process"):
+                procs.restart()  # the reader below is a newly started process (sampled: it costs ~1 ms)
+                restub()
             raw = fs.read_real(target_rel)
             judged = plan.kind != "ioerror"
             verdict = _judge(raw, prev_raw, canon_prev, canon_new)
